@@ -135,6 +135,9 @@ func (st *ccState) checkHandovers(v *vio) {
 // some suffix of A, the eligible datagrams the receive loop may still have had
 // in hand when the try registered. It is violated only if no choice of A' fits.
 func (st *ccState) checkTrySequences(v *vio, c *ccCall, timing bool) {
+	if c.offCaller {
+		return // hand-overs made by the receive loop cannot be attributed to tries from outside (see R4)
+	}
 	hs := st.handovers(c)
 	lb := c.invSeq
 	firstTx := 1 << 30
@@ -255,6 +258,26 @@ func (st *ccState) oracleRouting(v *vio) {
 			}
 		}
 		// R4 result vs verdicts
+		if c.spec.mk != mkNil && c.offCaller {
+			// The matcher of this call was (also) invoked on a goroutine other than the caller's:
+			// the client evaluates matchers where it receives. A verdict is then not a commitment
+			// of the call (the caller may be taking its timer or its context at that instant, as
+			// it may on the unchanged tree before it ever looks at the datagram), and hand-overs
+			// cannot be attributed to tries from outside. What the statement says is judged on
+			// the result: a returned message is one the matcher accepted.
+			if c.err == nil {
+				ok := false
+				for _, m := range c.matches {
+					if m.verdict && m.ptr == c.ret {
+						ok = true
+					}
+				}
+				if !ok {
+					v.add("R4-result", "call %d: returned a message (serial %d) the matcher never accepted", c.id, c.retInfo.Serial)
+				}
+			}
+			continue
+		}
 		if c.spec.mk != mkNil {
 			firstTrue := -1
 			for i, m := range c.matches {
@@ -490,7 +513,7 @@ func (st *ccState) oracleRefusal(v *vio) {
 			// falling on the instant a try's timer fires can lose against the timer, just as the
 			// unchanged tree's select may take the timer and never look at the datagram; the
 			// next try may then find the id taken)
-			if len(b.matches) > 0 && b.matches[len(b.matches)-1].verdict && !st.atTryBoundary(b, b.matches[len(b.matches)-1].doneT) {
+			if len(b.matches) > 0 && b.matches[len(b.matches)-1].verdict && !b.offCaller && !st.atTryBoundary(b, b.matches[len(b.matches)-1].doneT) {
 				v.add("R5-refused-after-accept", "call %d was refused after its matcher accepted a message", b.id)
 			}
 			// converse: somebody else must use the id during b's life
@@ -798,6 +821,14 @@ func (st *ccState) oracleRetry(v *vio) {
 		for _, m := range c.matches {
 			if m.verdict {
 				acc = m
+			}
+		}
+		if c.offCaller && (c.err != nil || (acc != nil && acc.ptr != c.ret)) {
+			acc = nil // a verdict given in the receive loop did not commit the call (see R4)
+			for _, m := range c.matches {
+				if m.verdict && c.err == nil && m.ptr == c.ret {
+					acc = m
+				}
 			}
 		}
 		tc, ctxEnded := st.ctxEnd(c)
